@@ -27,6 +27,7 @@ type Monitor struct {
 	MaxStackMB int
 	// ShardTimeoutS is the per-worker watchdog (default 1500 s).
 	ShardTimeoutS int
+	CaseStallS    int // seconds one case may run inside a worker before the worker names it and quits (0 = 30 quick / 150 thorough, <0 = off); the hang verdict is taken by replaying the case alone
 	// Exhaustive: the tier enumerates a finite space completely (evidence only).
 	Exhaustive func(tier string) bool
 	// Finish lets the monitor post-process the merged result in the driver (cross-worker
